@@ -157,6 +157,10 @@ type Scenario struct {
 	// the real code and is reported as a violation even if a re-run of the same vector passes (the replay
 	// file then documents the vector, not a schedule).
 	FreeRunning bool
+	// StallS overrides the real-time liveness limit (default VERIF_STALL_S = 120 s) for scenarios whose executions
+	// take milliseconds and in which "never reaches quiescence" is itself a possible outcome of the code under test
+	// (a goroutine blocked on a plain mutex is invisible to the virtual clock): such an execution is reported as `stall`.
+	StallS int
 }
 
 // Suite is one check: a property, a list of scenarios, one evidence file.
@@ -704,6 +708,9 @@ func (s *Suite) explore(sc *Scenario, tier string, seed int64, deadline time.Tim
 		nw = 1
 	}
 	stall := time.Duration(envInt("VERIF_STALL_S", 120)) * time.Second
+	if sc.StallS > 0 && os.Getenv("VERIF_STALL_S") == "" {
+		stall = time.Duration(sc.StallS) * time.Second
+	}
 	recheckEvery := 97 + int(seed%53)
 	if sc.Remote {
 		recheckEvery = 29 + int(seed%13)
@@ -907,7 +914,18 @@ func (s *Suite) explore(sc *Scenario, tier string, seed int64, deadline time.Tim
 			if recheck {
 				st.Rechecked++
 			}
-			if res.Harness != "" {
+			if res.Harness != "" && strings.HasPrefix(res.Harness, "nondeterministic execution") && sc.Remote {
+				// A passing execution that did not reproduce inside its worker process: not a verdict, and the run
+				// will end as a harness error unless a confirmed violation is found - but the exploration goes on
+				// (code under test that keeps state in package-level variables makes executions of one process
+				// depend on each other; the scenarios that drive it deliberately must still get their turn).
+				if harness == "" {
+					harness = sc.Name + ": " + res.Harness
+				}
+				res.Harness = ""
+				st.Unstable++
+				process(j.prefix, res)
+			} else if res.Harness != "" {
 				harness = sc.Name + ": " + res.Harness
 				stop = true
 			} else {
